@@ -19,6 +19,7 @@ THEOREMS = [
     "GoaktVerif.C32.C32_survivors_holds",
     "GoaktVerif.C32.C32_redistribute_least_holds",
     "GoaktVerif.C32.C32_gate_holds",
+    "GoaktVerif.C32.C32_both_ends_holds",
     "GoaktVerif.C32.C32_batches_holds",
     "GoaktVerif.C32.batches_of_code_constant",
     "GoaktVerif.C32.C32_holds",
@@ -28,8 +29,8 @@ GO2LEAN = {"targets": [
 ]}
 INPKG = ["actor/zz_verif_c32.go"]
 MANIFEST = {
-    "level_text": "Kernel-checked theorems over a hand-written model of actor/relocation_worker.go's planning code, for EVERY map iteration order, departed state, survivor set, role sets and base loads: allocateActors' shares/singletons/unplaceable are a permutation of the departed entries with one share per target, every shared entry sits on a target advertising its role, unplaceable = exactly the non-singletons nobody can host, singletons go to the leader, with distinct entries each is in exactly one share (C32_actors_holds); at its turn every actor goes to a minimal-current-load eligible target, lowest index on ties, role-less = minimal among all (C32_least_loaded_holds); leader grains ++ peer shares = the grains that did not disable relocation, exactly once, at most one share per target, even split (C32_grains_holds); the survivors of an unreachable target are exactly the peers whose host:port differs (C32_survivors_holds); redistribution after an unreachable target keeps the same rules incl. leader fallback, failure iff nobody can host, grain round-robin (C32_redistribute_holds, C32_redistribute_least_holds); the target-side dispatch never recreates system or non-relocatable entries (C32_gate_holds); batching keeps every item once (C32_batches_holds, batch-size constant regenerated from the source by go2lean). Tied to the code by a differential run of the real functions: exact on a deterministic per-actor replay and on all slice-ordered functions, order-independent projections, and an order-witness search on the one-call map-ordered output; the spec oracle (partition, eligibility, least-loaded for some order) is evaluated on the implementation output.",
-    "level_note": "Trusted: Lean kernel + propext/Quot.sound/Classical.choice; the differential sees only generated cases (bounded-exhaustive small + random up to 200 actors/8 peers). Not modelled: snapshot construction (preShutdown/deriveRelocationSetFromRegistry), reliable-delivery endpoints, negative/overflowing int loads; Chunkify with size 0 on a non-empty slice (never called so; batch size proved positive from the regenerated constant). The plan functions do not filter relocatable/system entries themselves; 'not assigned' is proved for the target-side dispatch gate, which is tied by running one entry through the real enqueueRelocation.",
+    "level_text": "Kernel-checked theorems over a hand-written model of actor/relocation_worker.go's planning code, for EVERY map iteration order, departed state, survivor set, role sets and base loads: allocateActors' shares/singletons/unplaceable are a permutation of the departed entries with one share per target, every shared entry sits on a target advertising its role, unplaceable = exactly the non-singletons nobody can host, singletons go to the leader, with distinct entries each is in exactly one share (C32_actors_holds); at its turn every actor goes to a minimal-current-load eligible target, lowest index on ties, role-less = minimal among all (C32_least_loaded_holds); leader grains ++ peer shares = the grains that did not disable relocation, exactly once, at most one share per target, even split (C32_grains_holds); the survivors of an unreachable target are exactly the peers whose host:port differs (C32_survivors_holds); redistribution after an unreachable target keeps the same rules incl. leader fallback, failure iff nobody can host, grain round-robin (C32_redistribute_holds, C32_redistribute_least_holds); the target-side dispatch never recreates system or non-relocatable entries (C32_gate_holds) and the snapshot builders upstream keep exactly the relocatable non-system actors, so such entries are in no share and never reported (C32_both_ends_holds); batching keeps every item once (C32_batches_holds, batch-size constant regenerated from the source by go2lean). Tied to the code by a differential run of the real functions: exact on a deterministic per-actor replay and on all slice-ordered functions, order-independent projections, and an order-witness search on the one-call map-ordered output; the spec oracle (partition, eligibility, least-loaded for some order) is evaluated on the implementation output.",
+    "level_note": "Trusted: Lean kernel + propext/Quot.sound/Classical.choice; the differential sees only generated cases (bounded-exhaustive small + random up to 200 actors/8 peers). Not modelled: reliable-delivery endpoints (kept in the derived set for registry withdrawal), singleton entries in the live preShutdown tie, negative/overflowing int loads; Chunkify with size 0 on a non-empty slice (never called so; batch size proved positive from the regenerated constant). The plan functions do not filter relocatable/system entries themselves; 'not assigned' is proved at both ends (C32_both_ends_holds): the snapshot builders keep exactly the relocatable non-system actors (tied: real deriveRelocationSetFromRegistry over scripted registry records; real preShutdown of a started system with spawned actors) and the target-side dispatch gate drops the rest (tied by running one entry through the real enqueueRelocation).",
     "technique": "Lean 4 proof (induction over the iteration order) on a hand-written model, tied by a model/implementation differential with an order-witness search for the map-ordered functions",
 }
 TRUSTED = [
@@ -38,7 +39,7 @@ TRUSTED = [
     "tools/go2lean translation of the constant defaultRelocationBatchSize",
     "the in-package accessors harness/inpkg/actor/zz_verif_c32.go are pass-through wrappers; the gate probe uses a registry double that records whether the respawn path reached the registry",
 ]
-RULE = ("ops aa/ag/ch/bb/rr/sp/rx/ll/el/gate (sp/rx: peers on a tiny host x port grid so survivors share the unreachable target's host or port); fixed corner cases; bounded-exhaustive aa over <=3 targets x role sets {-,a,b,ab} x loads <=2 x "
+RULE = ("ops aa/ag/ch/bb/rr/sp/rx/dv/ps/ll/el/gate (dv: real deriveRelocationSetFromRegistry over scripted registry records; ps: real preShutdown of a started system with spawned actors) (sp/rx: peers on a tiny host x port grid so survivors share the unreachable target's host or port); fixed corner cases; bounded-exhaustive aa over <=3 targets x role sets {-,a,b,ab} x loads <=2 x "
         "<=3 actors (quick, sampled) / <=5 actors (thorough); random aa up to 12 actors/4 peers and up to 200 actors/8 peers with singleton, "
         "non-relocatable, system flags, unknown roles, mis-sized base loads; grains up to 200 over <=9 targets; redistribution requests; "
         "chunk sizes around 500; non-trivial = implementation produced a plan; distinct by (case, output)")
@@ -219,6 +220,7 @@ def fixed_cases():
         "sp 1:9000:-;2:9000:1;1:9001:-;3:9002:- 0", "sp 1:9000:- 0", "sp 1:9000:-;1:9000:1 1",
         "rx - 1:9000:-;2:9000:1;3:9000:- 0 A1.1,2.0+G-",
         "rx 2 1:9000:1;1:9001:1;2:9000:- 0 A1.1,2.0,3.2,4.3+G-/A-+G5.e,6",
+        "dv 1.0,2.1.n,3.0.y,4.2.s,5.0.ny 1,2.y,3.d,4.e", "dv - -", "ps 1.0,2.1.n,3.0.y,4.2", "ps -",
         "ll 1;-;1 2,0,1 1", "ll 1;-;1 2,0,1 0", "ll 1;-;1 2,0,1 2", "ll . - 0", "ll -;- 1,1 0",
         "el 1,2 2", "el - 0", "el - 1", "el 0 0", "el 1,2 3",
     ]
@@ -244,6 +246,17 @@ def gen_cases(rng, tier):
         cases.append(rand_rr(rng, rng.choice([4, 12, 40]), rng.choice([0, 1, 3, 7])))
     for _ in range(10 if quick else 60):
         cases.append(rand_rr(rng, 200, 7))
+    for _ in range(40 if quick else 400):
+        n = rng.randint(0, 10)
+        ids = rng.sample(range(1, 60), n)
+        acts = [actor_tok(i, rng.choice([0, 1, 2]), "".join(f for f, pr in (("s", 0.1), ("n", 0.3), ("y", 0.2)) if rng.random() < pr)) for i in ids]
+        grs = [str(i) + ("." + fl if fl else "") for i, fl in ((i, "".join(f for f, pr in (("y", 0.25), ("d", 0.2), ("e", 0.3)) if rng.random() < pr)) for i in rng.sample(range(1, 60), rng.randint(0, 6)))]
+        cases.append(f"dv {actors_tok(acts)} {actors_tok(grs)}")
+    for _ in range(6 if quick else 40):
+        n = rng.randint(0, 8)
+        ids = rng.sample(range(1, 60), n)
+        acts = [actor_tok(i, rng.choice([0, 1, 2]), "".join(f for f, pr in (("n", 0.35), ("y", 0.25)) if rng.random() < pr)) for i in ids]
+        cases.append(f"ps {actors_tok(acts)}")
     for _ in range(60 if quick else 600):
         cases.append(rand_sp(rng))
     for _ in range(100 if quick else 1500):
